@@ -627,28 +627,58 @@ func c16R5(c *Ctx) {
 		}
 		c.Check(strings.HasPrefix(exprString(r.Results[0]), "uuid.New"), "C16.R5", "otherwise a fresh token is generated", p.Pos(r), gen.Key(), "return uuid.NewString()", exprString(r.Results[0]))
 	}
-	// PutBack: appends to the existing list or creates a singleton, keyed by the same hash
+	// PutBack: on every path the token is stored under its hash, appended to what is cached there
+	// (or as a singleton)
 	pinfo := put.Info()
-	adds := 0
+	hashP := pinfo.Defs[put.Decl.Type.Params.List[0].Names[0]]
+	tokP := pinfo.Defs[put.Decl.Type.Params.List[1].Names[0]]
+	holdsToken := func(x ast.Expr) bool {
+		x = ast.Unparen(x)
+		if call, ok := isBuiltinCall(pinfo, x, "append"); ok && len(call.Args) == 2 && call.Ellipsis == token.NoPos && identObj(pinfo, call.Args[1]) == tokP {
+			return true
+		}
+		if cl, ok := x.(*ast.CompositeLit); ok && len(cl.Elts) == 1 && identObj(pinfo, cl.Elts[0]) == tokP {
+			return true
+		}
+		return false
+	}
+	adds, goodAdds := 0, 0
+	var addCalls []ast.Node
 	ast.Inspect(put.Decl.Body, func(k ast.Node) bool {
-		if call, ok := k.(*ast.CallExpr); ok {
-			if sel, ok := ast.Unparen(call.Fun).(*ast.SelectorExpr); ok && sel.Sel.Name == "Add" && fieldOf(pinfo, sel.X) == cacheF {
-				if identObj(pinfo, call.Args[0]) == pinfo.Defs[put.Decl.Type.Params.List[0].Names[0]] {
-					adds++
+		call, ok := k.(*ast.CallExpr)
+		if !ok {
+			return true
+		}
+		sel, ok := ast.Unparen(call.Fun).(*ast.SelectorExpr)
+		if !ok || sel.Sel.Name != "Add" || fieldOf(pinfo, sel.X) != cacheF || len(call.Args) != 2 {
+			return true
+		}
+		adds++
+		okKey := identObj(pinfo, call.Args[0]) == hashP
+		okVal := holdsToken(call.Args[1])
+		if o := identObj(pinfo, call.Args[1]); o != nil && !okVal {
+			// a list variable: its last assignment appends the token
+			for _, d := range varDefs(put, o) {
+				if d.rhs != nil && holdsToken(d.rhs) {
+					okVal = true
 				}
 			}
 		}
-		return true
-	})
-	hasAppend := false
-	ast.Inspect(put.Decl.Body, func(k ast.Node) bool {
-		if as, ok := k.(*ast.AssignStmt); ok && len(as.Rhs) == 1 {
-			if call, ok := isBuiltinCall(pinfo, as.Rhs[0], "append"); ok && len(call.Args) == 2 && identObj(pinfo, call.Args[1]) == pinfo.Defs[put.Decl.Type.Params.List[1].Names[0]] {
-				hasAppend = true
-			}
+		if okKey && okVal {
+			goodAdds++
+			addCalls = append(addCalls, call)
 		}
 		return true
 	})
-	c.Check(adds == 2 && hasAppend, "C16.R5", "PutBack stores the token under its hash (append or singleton)", p.Pos(put.Decl), put.Key(), "cache.Add(hash, append(list, token)) / cache.Add(hash, []string{token})", fmt.Sprintf("adds=%d append=%v", adds, hasAppend))
+	pq := NewPathQuery(p, put, nil)
+	w := pq.Escapes(nil, nil, func(n ast.Node) bool {
+		for _, a := range addCalls {
+			if n.Pos() <= a.Pos() && a.End() <= n.End() {
+				return true
+			}
+		}
+		return false
+	}, nil)
+	c.Check(adds >= 1 && goodAdds == adds && w == nil, "C16.R5", "PutBack stores the token under its hash (append or singleton)", p.Pos(put.Decl), put.Key(), "every path: cache.Add(hash, append(list, token)) or cache.Add(hash, []string{token})", fmt.Sprintf("adds=%d storing the token under the hash=%d path without a store: %s", adds, goodAdds, p.describePath(w)))
 	_ = token.ADD
 }
